@@ -844,6 +844,41 @@ def normalise_rule(ctx):
     return obs
 
 
+def event_flags_rule(ctx):
+    """R.v(elem, evName, v, final, mutated, capture, ..): every emission site passes catch, mut, capture in that order"""
+    ob = ctx.ob
+    tc = ctx.tc
+    ts = ctx.ts() or ""
+    m = re.search(r"\n  v = \(([^)]*)\)", ts)
+    params = [x.strip().split(":")[0].strip().rstrip("?") for x in m.group(1).split(",") if x.strip()] if m else []
+    want_ts = ["final", "mutated", "capture"]
+    okts = params[3:6] == want_ts
+    obs = [ob("C04.proto/event-flags/runtime", okts, "glass-easel/src/tmpl/proc_gen_wrapper.ts", "R.v takes %s after the handler (expected %s)" % (params[3:6], want_ts))]
+    fmap = {"final": "is_catch", "mutated": "is_mut", "capture": "is_capture"}
+    want = [fmap[x] for x in want_ts]
+    fs = [f for f in tc.fns if f.base == "EventBinding" and f.name == "to_proc_gen" and f.body]
+    k = 0
+    for f in fs:
+        for n in sir.walk(f.body):
+            wf = sir.write_fmt_call(n)
+            if not wf:
+                continue
+            seq = []
+            for pc in wf[1]:
+                if pc[0] != "lit" and isinstance(pc[1], dict) and pc[1].get("k") == "if":
+                    c = sir.expr_str(pc[1]["cond"]).replace(" ", "")
+                    t = [x.get("v") for x in sir.walk(pc[1]["then"]) if x.get("k") == "lit"]
+                    if c.startswith("self.is_") and "!0" in t:
+                        seq.append(c[len("self."):])
+            if len(seq) >= 2:
+                k += 1
+                obs.append(ob("C04.proto/event-flags/site#%d" % k, seq == want, ctx.where(f), "flags are passed as %s (runtime order: %s)" % (seq, want),
+                              witness=None if seq == want else "capture-bind:tap=\"{{h}}\" is registered as a non-capturing mut-bind listener"))
+    if k < 3:
+        obs.append(ob("C04.floor/event-flags", False, "proc_gen/tag.rs", "only %d R.v flag emissions found (floor 3)" % k))
+    return obs
+
+
 def run(ctx):
     obs = proto_rule(ctx)
     obs += child_lists_rule(ctx)
@@ -852,6 +887,7 @@ def run(ctx):
     obs += text_rule(ctx)
     obs += concat_rule(ctx)
     obs += normalise_rule(ctx)
+    obs += event_flags_rule(ctx)
     from rules.c12 import check_entities
     for x in check_entities(ctx):
         x = dict(x)
